@@ -1,4 +1,4 @@
-import UgoVerif.Proofs.VMKeeps
+import UgoVerif.Proofs.C07Calc
 import Lean.Elab.Tactic
 /-
   `bytecode_immutable`, model half: no action of the VM model assigns the fields that
@@ -187,6 +187,16 @@ theorem keeps_throwGenErr (e : OpErr) : Keeps P (throwGenErr e) := by unfold thr
 macro_rules | `(tactic| keeps_prim) => `(tactic| exact keeps_throwGenErr _)
 theorem keeps_failWith (e : OpErr) : Keeps P (failWith e) := by unfold failWith; keeps
 macro_rules | `(tactic| keeps_prim) => `(tactic| exact keeps_failWith _)
+theorem keeps_fillUndefined (lo : Int) (n : Nat) : Keeps P (fillUndefined lo n) := by unfold fillUndefined; keeps
+macro_rules | `(tactic| keeps_prim) => `(tactic| exact keeps_fillUndefined _ _)
+theorem keeps_copySlots (d : Int) (xs : List V) : Keeps P (copySlots d xs) := by unfold copySlots; keeps
+macro_rules | `(tactic| keeps_prim) => `(tactic| exact keeps_copySlots _ _)
+theorem keeps_enterFrame (fi : Nat) (fa : Addr) (fr : Option (List Addr)) (bp : Int) : Keeps P (enterFrame fi fa fr bp) := by unfold enterFrame; keeps
+macro_rules | `(tactic| keeps_prim) => `(tactic| exact keeps_enterFrame _ _ _ _)
+theorem keeps_popArgs (n : Nat) : Keeps P (popArgs n) := by unfold popArgs; keeps
+macro_rules | `(tactic| keeps_prim) => `(tactic| exact keeps_popArgs _)
+theorem keeps_bindArgs (code : Code) (bp na fl : Int) : Keeps P (bindArgs code bp na fl) := by unfold bindArgs; keeps
+macro_rules | `(tactic| keeps_prim) => `(tactic| exact keeps_bindArgs _ _ _ _)
 theorem keeps_callCompiled (fa : Addr) (na fl : Int) : Keeps P (callCompiled fa na fl) := by unfold callCompiled; keeps
 macro_rules | `(tactic| keeps_prim) => `(tactic| exact keeps_callCompiled _ _ _)
 theorem keeps_callBuiltin (i : Nat) (args : List V) : Keeps P (callBuiltin i args) := by unfold callBuiltin; keeps
@@ -288,6 +298,12 @@ theorem keeps_dispatch (F : FloatOps) (op : Nat) : Keeps P (dispatch F op) := by
 macro_rules | `(tactic| keeps_prim) => `(tactic| exact keeps_dispatch _ _)
 theorem keeps_step (F : FloatOps) : Keeps P (step F) := by unfold step; keeps
 macro_rules | `(tactic| keeps_prim) => `(tactic| exact keeps_step _)
+theorem keeps_setLocal (nl : Nat) (i : Int) (v : V) : Keeps P (setLocal nl i v) := by unfold setLocal; keeps
+macro_rules | `(tactic| keeps_prim) => `(tactic| exact keeps_setLocal _ _ _)
+theorem keeps_copyLocals (nl : Nat) (xs : List V) : Keeps P (copyLocals nl xs) := by unfold copyLocals; keeps
+macro_rules | `(tactic| keeps_prim) => `(tactic| exact keeps_copyLocals _ _)
+theorem keeps_resultValue  : Keeps P (resultValue ) := by unfold resultValue; keeps
+macro_rules | `(tactic| keeps_prim) => `(tactic| exact keeps_resultValue )
 theorem keeps_initLocals (args : List V) : Keeps P (initLocals args) := by unfold initLocals; keeps
 macro_rules | `(tactic| keeps_prim) => `(tactic| exact keeps_initLocals _)
 theorem keeps_initCurrentFrame  : Keeps P (initCurrentFrame ) := by unfold initCurrentFrame; keeps
@@ -313,11 +329,7 @@ theorem finish_keeps (s : State) (h : P s) : P (runFrom.finish s).2 := by
   split
   · exact h
   · split
-    · have hm : Keeps P (do
-          let v ← stackGet (s.sp - 1)
-          match v with
-          | .box a => do match (← heapGet a) with | .box v => pure v | _ => unsupported "model: bad box"
-          | v => pure v : M V) := by keeps
+    · have hm : Keeps P resultValue := keeps_resultValue
       split <;> (rename_i heq; exact hm.of_run h heq)
     · exact h
 
